@@ -17,7 +17,7 @@
 import OttoVerif.Base.Proto
 import OttoVerif.C11.Spec
 namespace OttoVerif.C11.Driver
-open OttoVerif.F64 OttoVerif.Proto OttoVerif.C11
+open OttoVerif.F64 OttoVerif.Proto OttoVerif.C11 OttoVerif.C11.Spec
 
 /-! ### token reader -/
 
@@ -89,51 +89,6 @@ def jvsTok : JVs → String
 def jmsTok : JMs → String
   | .nil => ""
   | .cons k v t => unitsOut k ++ "." ++ jvTok v ++ jmsTok t
-end
-
-/-! ### deviation regions of JSON.parse (decidable predicates on the request) -/
-
-def lenM : JMs → Nat
-  | .nil => 0
-  | .cons _ _ t => 1 + lenM t
-
-mutual
-/-- some object has two or more properties: their enumeration order is then observable -/
-def unordered : JV → Bool
-  | .arr l => unorderedL l
-  | .obj m => lenM m ≥ 2 || unorderedM m
-  | _ => false
-def unorderedL : JVs → Bool
-  | .nil => false
-  | .cons v t => unordered v || unorderedL t
-def unorderedM : JMs → Bool
-  | .nil => false
-  | .cons _ v t => unordered v || unorderedM t
-end
-
-/-- an escaped surrogate half that is not part of an escaped high+low pair -/
-def loneEsc : List Item → Bool
-  | [] => false
-  | .raw _ :: t => loneEsc t
-  | [.esc u] => isSurr u
-  | .esc u :: .esc w :: t => if isHi u ∧ isLo w then loneEsc t else isSurr u || loneEsc (.esc w :: t)
-  | .esc u :: .raw _ :: t => isSurr u || loneEsc t
-
-def overflows (n : NumLit) : Bool := match n.value with | .inf _ => true | _ => false
-
-mutual
-def rtAny (pn : NumLit → Bool) (ps : List Item → Bool) : RT → Bool
-  | .num n => pn n
-  | .str s => ps s
-  | .arr l => rtAnyL pn ps l
-  | .obj m => rtAnyM pn ps m
-  | _ => false
-def rtAnyL (pn : NumLit → Bool) (ps : List Item → Bool) : RTs → Bool
-  | .nil => false
-  | .cons v t => rtAny pn ps v || rtAnyL pn ps t
-def rtAnyM (pn : NumLit → Bool) (ps : List Item → Bool) : RMs → Bool
-  | .nil => false
-  | .cons k v t => ps k || rtAny pn ps v || rtAnyM pn ps t
 end
 
 def joinDev (ds : List String) : String := if ds.isEmpty then "-" else ",".intercalate ds
@@ -213,55 +168,38 @@ def numStr (x : FV) : Str := C06.Spec.toStringNum x
 
 def lib : C06.Lib := C06.Spec.exactLib
 
-def htmlChar (c : Nat) : Bool := c = 60 || c = 62 || c = 38 || c = 0x2028 || c = 0x2029
-
-def sortedKeys : JMs → Bool
-  | .nil => true
-  | .cons _ _ .nil => true
-  | .cons k _ (.cons k' v' t) => ltKeyBytes k k' && sortedKeys (.cons k' v' t)
-
-/-- the exact integer expansion Go prints differs from the ES5 shortest-digits form -/
-def intDigitsDiffer (x : FV) : Bool :=
-  match x with
-  | .fin s m e =>
-    m != 0 && isIntegral m e && decide (truncAbs m e < 2 ^ 63) &&
-      (C06.formatInt (truncInt (.fin s m e)) 10 != C06.Spec.toStringNum x)
-  | _ => false
+def fuelOf (t : String) : Nat := 4 * t.length + 16
 
 mutual
-def jvAny (pn : FV → Bool) (ps : Str → Bool) (pm : JMs → Bool) : JV → Bool
-  | .num x => pn x
-  | .str s => ps s
-  | .arr l => jvAnyL pn ps pm l
-  | .obj m => pm m || jvAnyM pn ps pm m
-  | _ => false
-def jvAnyL (pn : FV → Bool) (ps : Str → Bool) (pm : JMs → Bool) : JVs → Bool
-  | .nil => false
-  | .cons v t => jvAny pn ps pm v || jvAnyL pn ps pm t
-def jvAnyM (pn : FV → Bool) (ps : Str → Bool) (pm : JMs → Bool) : JMs → Bool
-  | .nil => false
-  | .cons k v t => ps k || jvAny pn ps pm v || jvAnyM pn ps pm t
+/-- the tree the emitted text must denote: numbers by their value (−0 prints as 0) -/
+def expectOf : GV → JV
+  | .nil => .null
+  | .bool b => .bool b
+  | .str s => .str s
+  | .int i => .num (OttoVerif.F64.ofInt i)
+  | .float x => .num x
+  | .arr l => .arr (expectOfL l)
+  | .map m => .obj (expectOfM m)
+def expectOfL : GVs → JVs
+  | .nil => .nil
+  | .cons v t => .cons (expectOf v) (expectOfL t)
+def expectOfM : GMs → JMs
+  | .nil => .nil
+  | .cons k v t => .cons k (expectOf v) (expectOfM t)
 end
 
-def no1 {α : Type} : α → Bool := fun _ => false
-
-/-- a skipped item (rejected or duplicate) in front of an accepted one: otto then stores names
-    at the wrong slots -/
-def plSkipBeforeAccept (items : List PLItem) : Bool :=
-  let rec go : List PLItem → List Str → Bool → Bool
-    | [], _, _ => false
-    | it :: rest, seen, skipped =>
-      match Spec.PLItem.name numStr it with
-      | none => go rest seen true
-      | some n => if seen.contains n then go rest seen true else skipped || go rest (n :: seen) skipped
-  go items [] false
-
-def gapDev (sp : Space) : Bool :=
-  match sp with
-  | .str s => (s.take 10).any (· ≥ 128) && (decide ((Str.bytesOfUnits s).length > 10) || goStr s != s)
-  | _ => false
-
-def fuelOf (t : String) : Nat := 4 * t.length + 16
+/-- per-sample validation of the assumptions of Thm.stringify_valid (`NumTxt`, and the numeric
+    read-back rd (fmt x) = x): the text the model emits is re-read by the Lean JSON reader -/
+def selfCheck (fuel : Nat) (v : SV) (r : Replacer) (sp : Space) : String :=
+  let gap := C11.gapOf sp
+  if !gap.all isWS then "" else
+  match walk (mctxOf numStr r) fuel 0 [] v with
+  | .val g =>
+    let g' := sortMaps g
+    match Spec.jsonParse (marshal lib gap 0 g') with
+    | none => "!invalid"
+    | some t => if jvTok t == jvTok (expectOf g') then "" else "!reread"
+  | _ => ""
 
 def handleStr (vt : String) (v : SV) (r : Replacer) (sp : Space) : String :=
   let fuel := fuelOf vt
@@ -276,9 +214,9 @@ def handleStr (vt : String) (v : SV) (r : Replacer) (sp : Space) : String :=
       (if jvAny intDigitsDiffer no1 no1 t then ["str_int_digits"] else [])
     | _ => []
   let dev := treeDev ++
-    (match r with | .list items => if plSkipBeforeAccept items then ["str_proplist_slots"] else [] | _ => []) ++
+    (match r with | .list items => if Spec.plSkipBeforeAccept numStr items then ["str_proplist_slots"] else [] | _ => []) ++
     (if gapDev sp then ["str_gap_bytes"] else [])
-  reply (outTok m) (outTok s) (joinDev dev)
+  reply (outTok m ++ selfCheck fuel v r sp) (outTok s) (joinDev dev)
 
 def handle (ws : List String) : String :=
   match ws with
